@@ -235,6 +235,8 @@ pub struct Shared {
     pub shutdown: watch::Sender<bool>,
     pub logical: AtomicU64,
     pub in_leader_state: Vec<AtomicBool>,
+    /// the height each replica is currently asking `leader_state` about
+    pub next_heights: Vec<std::sync::atomic::AtomicU32>,
     pub keys: KeyNames,
     /// SHA-1 of the six known script texts → short name (classification only)
     pub script_kinds: HashMap<String, &'static str>,
@@ -281,7 +283,17 @@ impl Shared {
         } else {
             name.to_ascii_lowercase()
         };
-        let during_ls = self.in_leader_state[link.replica].load(Ordering::SeqCst);
+        // a write counts as reconciliation/repair traffic only if it happens while the
+        // replica is inside `leader_state` AND concerns a height it has not committed
+        // (stragglers of the previous, already successful publish are excluded)
+        let in_ls = self.in_leader_state[link.replica].load(Ordering::SeqCst);
+        let replica_next = self.next_heights[link.replica].load(Ordering::SeqCst);
+        let posted_height: Option<u32> = if kind == "write_block" && args.len() > 8 {
+            Self::parse_num::<u32>(Some(&args[8]))
+        } else {
+            None
+        };
+        let during_ls = in_ls && posted_height.is_some_and(|h| h >= replica_next);
         let now_us = self.clock.now_us();
         let now_ms = now_us / 1000;
         let (reply, effects, incarnation, before, after, stream_len, new_gaps) = {
